@@ -182,6 +182,21 @@ pub(super) fn normalize_rel_path(root: &Path, path: &Path) -> String {
     rel.to_string_lossy().replace('\\', "/")
 }
 
+/// Length of a trailing UTF-8 sequence that is valid so far but incomplete (0 when `bytes` ends on a
+/// character boundary or in an invalid sequence).
+pub(super) fn incomplete_utf8_tail(bytes: &[u8]) -> usize {
+    let start = bytes.len().saturating_sub(3);
+    for i in (start..bytes.len()).rev() {
+        if bytes[i] & 0xC0 != 0x80 {
+            return match std::str::from_utf8(&bytes[i..]) {
+                Err(err) if err.error_len().is_none() => bytes.len() - i,
+                _ => 0,
+            };
+        }
+    }
+    0
+}
+
 pub(super) fn truncate_utf8(bytes: &[u8], max_bytes: usize) -> (String, bool, usize) {
     if bytes.len() <= max_bytes {
         return (
